@@ -493,7 +493,7 @@ func genC09Catalog(t *rapid.T) C09CatalogCase {
 }
 
 func TestC09(t *testing.T) {
-	p := Prop[C09Case]{ID: "C09", Sub: "idspace", Gen: genC09, Run: runC09, Quick: 5000, Thorough: 20000}
+	p := Prop[C09Case]{ID: "C09", Sub: "idspace", Gen: genC09, Run: runC09, Quick: 5000, Thorough: 100000}
 	// exhaustive grid: 0..2 imports (3 in thorough), each 0..2 symbols over the
 	// alphabet with max_id 0..3 and four catalog states; locals 0..2 symbols
 	Enumerate(t, p, "grid", func(yield func(C09Case) bool) {
@@ -565,9 +565,9 @@ func TestC09(t *testing.T) {
 		}
 	})
 	RunProp(t, p)
-	pb := Prop[C09BuilderCase]{ID: "C09", Sub: "builder", Gen: genC09Builder, Run: runC09Builder, Quick: 3000, Thorough: 20000}
+	pb := Prop[C09BuilderCase]{ID: "C09", Sub: "builder", Gen: genC09Builder, Run: runC09Builder, Quick: 3000, Thorough: 100000}
 	RunProp(t, pb)
-	pc := Prop[C09CatalogCase]{ID: "C09", Sub: "catalog-adjust", Gen: genC09Catalog, Run: runC09Catalog, Quick: 2000, Thorough: 10000}
+	pc := Prop[C09CatalogCase]{ID: "C09", Sub: "catalog-adjust", Gen: genC09Catalog, Run: runC09Catalog, Quick: 2000, Thorough: 50000}
 	RunProp(t, pc)
 }
 
